@@ -74,6 +74,9 @@ func AmountFromString(val string) (Amount, error) {
 	if err != nil {
 		return a, fmt.Errorf("invalid major number '%v', %w", val, err)
 	}
+	if !isDigits(x[0]) {
+		return a, fmt.Errorf("invalid major number '%v', only digits expected", val)
+	}
 	e := uint32(0)
 	v2 := int64(0)
 
@@ -83,8 +86,18 @@ func AmountFromString(val string) (Amount, error) {
 		if err != nil {
 			return a, fmt.Errorf("invalid decimal number '%v', %w", val, err)
 		}
+		if !isDigits(x[1]) {
+			return a, fmt.Errorf("invalid decimal number '%v', only digits expected", val)
+		}
 		e = uint32(len(x[1]))
-		v = v * intPow(10, e)
+		if e > maxAmountExp {
+			return a, fmt.Errorf("invalid decimal number '%v', too many decimal places", val)
+		}
+		p := intPow(10, e)
+		if v > (math.MaxInt64-v2)/p {
+			return a, fmt.Errorf("invalid number '%v', value out of range", val)
+		}
+		v = v * p
 		v += v2
 	}
 
@@ -96,6 +109,24 @@ func AmountFromString(val string) (Amount, error) {
 	}
 	a.exp = e
 	return a, nil
+}
+
+// maxAmountExp is the largest number of decimal places whose unit still
+// fits inside an int64.
+const maxAmountExp = 18
+
+// isDigits returns true if the string is not empty and only contains
+// ASCII digits.
+func isDigits(s string) bool {
+	if len(s) == 0 {
+		return false
+	}
+	for i := 0; i < len(s); i++ {
+		if s[i] < '0' || s[i] > '9' {
+			return false
+		}
+	}
+	return true
 }
 
 // AmountFromHumanString removes any excess decimal places, commas, or
